@@ -342,7 +342,7 @@ func TestC13(t *testing.T) {
 
 	// ---- random walks -----------------------------------------------------------------------------------
 	alphabet := []int{stL2Events, stL2Events, stL2Empty, stEpoch, stEpoch, stEpoch, stStatus, stAdvance, stInError, stInError, stFailBefore, stL1Advance, stSettle, stSettle,
-		stRestart, stCrashSend, stCrashSend, stCrashEntry, stCrashNext, stLoseDB, stSaveFault, stSaveFault, stSnapshot}
+		stRestart, stCrashSend, stCrashSend, stCrashEntry, stCrashNext, stLoseDB, stSaveFault, stSaveFault, stSnapshot, stReadFault, stReadFault}
 	nWalks := r.N(150, 4000)
 	parallel(nWalks, workers, func(i int) {
 		caseID := fmt.Sprintf("walk/%d", i)
